@@ -135,3 +135,96 @@ func IsErrorReturn(p *core.Program, w *facts.Walker, fn *types.Func, ret *ast.Re
 	}
 	return NonNilError(p, w, ret.Results[len(ret.Results)-1], f)
 }
+
+// ---------------------------------------------------------------- dominance helpers
+
+// Dominated reports, for one node `target` of fd, whether every path from the
+// function entry to the node passes an event accepted by prior (a call
+// expression or an assignment), and returns the facts known at the node.
+func Dominated(fd *core.FuncDecl, target ast.Node, prior func(n ast.Node) bool) (dominated bool, at facts.Formula, found bool) {
+	w := facts.NewWalker(fd.Pkg.TypesInfo)
+	w.Transfer = func(st int, n ast.Node, f facts.Formula) int {
+		if n != target && prior(n) {
+			return 1
+		}
+		return st
+	}
+	w.AtNode = func(n ast.Node, states uint64, f facts.Formula) {
+		if n == target {
+			found = true
+			dominated = states == 2 // only state 1 reaches the node
+			at = f
+		}
+	}
+	w.WalkBody(fd.Decl.Body, nil)
+	return
+}
+
+// FactsAt returns the path condition at a call/assignment/return node of fd,
+// with an optional rule-specific atomizer.
+func FactsAt(fd *core.FuncDecl, target ast.Node, atomize func(w *facts.Walker, e ast.Expr) facts.Formula) (fm facts.Formula, w *facts.Walker, found bool) {
+	w = facts.NewWalker(fd.Pkg.TypesInfo)
+	w.Atomize = atomize
+	w.AtNode = func(n ast.Node, states uint64, f facts.Formula) {
+		if n == target {
+			fm, found = f, true
+		}
+	}
+	w.OnExpr = func(e ast.Expr, f facts.Formula) {
+		if ast.Node(e) == target && !found {
+			fm, found = f, true
+		}
+	}
+	w.OnStmt = func(s ast.Stmt, f facts.Formula) {
+		if ast.Node(s) == target && !found {
+			fm, found = f, true
+		}
+	}
+	w.WalkBody(fd.Decl.Body, nil)
+	return
+}
+
+// PostDominated reports whether every path from node `from` to a normal
+// return of fd passes an event accepted by later.
+func PostDominated(p *core.Program, fd *core.FuncDecl, from ast.Node, later func(n ast.Node) bool) (ok bool, witness string) {
+	w := facts.NewWalker(fd.Pkg.TypesInfo)
+	ok = true
+	w.Transfer = func(st int, n ast.Node, f facts.Formula) int {
+		if n == from {
+			return 1
+		}
+		if st == 1 && later(n) {
+			return 2
+		}
+		return st
+	}
+	w.OnExit = func(st int, ret *ast.ReturnStmt, f facts.Formula) {
+		if st == 1 && !IsErrorReturn(p, w, fd.Obj, ret, f) {
+			ok = false
+			if witness == "" {
+				if ret != nil {
+					witness = p.Pos(ret.Pos())
+				} else {
+					witness = p.Pos(fd.Decl.End())
+				}
+			}
+		}
+	}
+	w.WalkBody(fd.Decl.Body, nil)
+	return
+}
+
+// CallsTo lists the call sites of one function in production code.
+func CallsTo(p *core.Program, target *types.Func) []core.CallSite {
+	return p.CallSites(func(fn *types.Func) bool {
+		if fn == target {
+			return true
+		}
+		for _, g := range p.Impls(fn) {
+			if g == target {
+				return true
+			}
+		}
+		return false
+	})
+}
